@@ -77,3 +77,20 @@ Theorem C01_json_reads_what_was_written :
     forall (v : jval) (tail : bytes), writable float_ok v -> val_end tail ->
       json_value (jwrite fmt_f64 v ++ tail) = (jevs v, JOk tail).
 Proof. exact json_value_reads_back. Qed.
+
+(* JSON -> MessagePack keeps the value, on the two codec models: for every stream
+   of values JSON carries (within MessagePack's ranges and xt's depth limit),
+   what either MessagePack loop reads from the MessagePack xt writes for them is
+   the event list of the same values - same types, integers with their sign and
+   magnitude, floats with the identical 64 bits, strings byte for byte, entries in
+   the same order. *)
+From XtModel Require Import Utf8 JsonWriteModel JsonRoundTripProofs.
+
+Theorem C01_json_to_msgpack_same_value :
+  forall js : list jval,
+    Forall jencodable js ->
+    let mp := flat_map enc_evs (map jevs js) in
+    fst (transcode_reader utf8_valid mp) = map evs (map to_mval js) /\
+    fst (transcode_slice utf8_valid mp) = map evs (map to_mval js) /\
+    mm_ok (transcode_reader utf8_valid mp) = true /\ mm_ok (transcode_slice utf8_valid mp) = true.
+Proof. exact json_to_msgpack_same_value. Qed.
